@@ -13,11 +13,12 @@ Fixpoint sorted (l : list Z) : Prop :=
 
 (* the segment invariant, following the loop of AcceptRemove: a segment of size sz = seg_size seg that is
    followed by at least one more value is sorted; the remaining values are the unsorted tail *)
-Inductive segs_ok : nat -> nat -> list Z -> Prop :=
-| so_tail seg sz l : (length l <= sz)%nat -> segs_ok seg sz l
+Inductive segs_gen (ss : nat -> nat) : nat -> nat -> list Z -> Prop :=
+| so_tail seg sz l : (length l <= sz)%nat -> segs_gen ss seg sz l
 | so_seg seg sz l : (0 < sz)%nat -> (sz < length l)%nat -> sorted (firstn sz l) ->
-                    segs_ok (S seg) (seg_size (S seg)) (skipn sz l) -> segs_ok seg sz l.
+                    segs_gen ss (S seg) (ss (S seg)) (skipn sz l) -> segs_gen ss seg sz l.
 
+Definition segs_ok : nat -> nat -> list Z -> Prop := segs_gen seg_size.
 Definition vals_ok (l : list Z) : Prop := segs_ok 0 first_seg l.
 
 (* ---------------------------------------------------------------- sorted lists *)
@@ -54,18 +55,24 @@ Proof.
   - apply IH; auto.
 Qed.
 
+Lemma In_firstn_to_In {A} (l : list A) n x : In x (firstn n l) -> In x l.
+Proof.
+  revert n; induction l as [|y l IH]; intros [|n]; simpl; try tauto.
+  intros [H|H]; [left; exact H|right; eapply IH; exact H].
+Qed.
+
+Lemma In_skipn_to_In {A} (l : list A) n x : In x (skipn n l) -> In x l.
+Proof.
+  revert n; induction l as [|y l IH]; intros [|n]; simpl; try tauto.
+  intros H. right. eapply IH; exact H.
+Qed.
+
 Lemma sorted_firstn l n : sorted l -> sorted (firstn n l).
 Proof.
   revert n; induction l as [|x l IH]; intros n H; [destruct n; exact I|].
   destruct n; simpl; [exact I|]. destruct H as [H1 H2]. split; [|apply IH; exact H2].
-  intros y Hy. apply H1. eapply (In_firstn_to_In_l n). exact Hy.
+  intros y Hy. apply H1. eapply In_firstn_to_In. exact Hy.
 Qed.
-
-Lemma In_firstn_to_In {A} (l : list A) n x : In x (firstn n l) -> In x l.
-Proof. revert n; induction l as [|y l IH]; intros [|n]; simpl; auto. intros [H|H]; [left|right]; eauto. Qed.
-
-Lemma In_skipn_to_In {A} (l : list A) n x : In x (skipn n l) -> In x l.
-Proof. revert n; induction l as [|y l IH]; intros [|n]; simpl; auto. intros H. right. eauto. Qed.
 
 Lemma sorted_skipn l n : sorted l -> sorted (skipn n l).
 Proof.
@@ -105,7 +112,7 @@ Qed.
 Lemma nth_remove_perm (l : list Z) n : (n < length l)%nat -> Permutation l (nth n l 0 :: remove_nth n l).
 Proof.
   revert n; induction l as [|y l IH]; intros n H; simpl in *; [lia|].
-  destruct n; simpl; [reflexivity|]. etransitivity; [apply perm_skip, IH; lia|apply perm_swap].
+  destruct n; simpl; [reflexivity|]. etransitivity; [apply perm_skip, (IH n); lia|apply perm_swap].
 Qed.
 
 Lemma index_of_spec x l : In x l -> (index_of x l < length l)%nat /\ nth (index_of x l) l 0 = x.
@@ -133,21 +140,24 @@ Proof.
   simpl skipn. apply IH. simpl in *. lia.
 Qed.
 
+Lemma last_app {A} (l1 l2 : list A) d : l2 <> [] -> last (l1 ++ l2) d = last l2 d.
+Proof.
+  intros H. induction l1 as [|x l1 IH]; [reflexivity|]. simpl.
+  destruct (l1 ++ l2) eqn:E; [apply app_eq_nil in E as [_ E]; congruence|exact IH].
+Qed.
+
 Lemma removelast_length {A} (l : list A) : length (removelast l) = (length l - 1)%nat.
 Proof. destruct l using rev_ind; [reflexivity|]. rewrite removelast_last, app_length. simpl. lia. Qed.
 
 Lemma segs_ok_removelast seg sz l : segs_ok seg sz l -> segs_ok seg sz (removelast l).
 Proof.
-  induction 1 as [seg sz l H|seg sz l Hp Hlt Hs Hr IH].
+  unfold segs_ok. induction 1 as [seg sz l H|seg sz l Hp Hlt Hs Hr IH].
   - apply so_tail. rewrite removelast_length. lia.
   - destruct (Nat.ltb_spec sz (length (removelast l))) as [Hl|Hl]; [|apply so_tail; exact Hl].
     apply so_seg; [exact Hp|exact Hl| |].
     + rewrite firstn_removelast by lia. exact Hs.
     + rewrite skipn_removelast by lia. exact IH.
 Qed.
-
-Lemma segs_ok_shorter seg sz l l' : (length l' <= sz)%nat -> segs_ok seg sz l'.
-Proof. intros. apply so_tail. assumption. Qed.
 
 (* ---------------------------------------------------------------- AcceptRemove *)
 
@@ -169,14 +179,14 @@ Lemma ar_loop_correct seg sz rest :
   exists rest', ar_loop fuel seg raw (last rest 0) done rest sz = Some (done ++ rest') /\
                 Permutation rest (raw :: rest') /\ segs_ok seg sz rest'.
 Proof.
-  induction 1 as [seg sz rest Hlen|seg sz rest Hp Hlt Hs Hr IH]; intros fuel raw done Hf Hin.
+  unfold segs_ok. induction 1 as [seg sz rest Hlen|seg sz rest Hp Hlt Hs Hr IH]; intros fuel raw done Hf Hin.
   - (* the unsorted tail *)
     destruct fuel as [|f]; [lia|]. simpl.
     replace (Nat.ltb sz (length rest)) with false by (symmetry; apply Nat.ltb_ge; lia).
     destruct (index_of_spec raw rest Hin) as [Hi Hn].
     replace (Nat.ltb (index_of raw rest) (length rest)) with true by (symmetry; apply Nat.ltb_lt; exact Hi).
     eexists; split; [reflexivity|]. split.
-    + rewrite <- Hn at 2. apply remove_unordered_perm_nth. exact Hi.
+    + pose proof (remove_unordered_perm_nth rest _ Hi) as P. rewrite Hn in P. exact P.
     + apply so_tail. rewrite swap_remove_length by exact Hi. lia.
   - destruct fuel as [|f]; [lia|]. simpl.
     replace (Nat.ltb sz (length rest)) with true by (symmetry; apply Nat.ltb_lt; lia).
@@ -192,7 +202,7 @@ Proof.
       assert (Hri : (ri < length sg)%nat) by (apply lb_removelast_lt; exact Hsgne).
       set (sg1 := remove_nth ri sg).
       assert (Hp1 : Permutation sg (raw :: sg1)).
-      { unfold sg1. rewrite <- (lb_finds raw sg Hs Hsg) at 2. apply nth_remove_perm. exact Hri. }
+      { pose proof (nth_remove_perm sg ri Hri) as P. unfold ri in P at 1. rewrite (lb_finds raw sg Hs Hsg) in P. exact P. }
       assert (Hs1 : sorted sg1) by (apply sorted_remove_nth; exact Hs).
       set (lst := last rest 0).
       assert (Hafter : after = removelast after ++ [lst]).
@@ -203,7 +213,7 @@ Proof.
       * rewrite Hsplit. rewrite Hafter at 1.
         etransitivity; [apply Permutation_app_tail; exact Hp1|]. simpl. apply perm_skip.
         etransitivity; [|apply Permutation_app_tail; symmetry; apply insert_at_perm].
-        simpl. rewrite app_assoc. etransitivity; [symmetry; apply Permutation_cons_append|]. rewrite <- app_assoc. reflexivity.
+        simpl. rewrite app_assoc. symmetry. apply Permutation_cons_append.
       * assert (Hl2 : length (insert_at (lb lst sg1) lst sg1) = sz).
         { pose proof (Permutation_length (insert_at_perm lst sg1 (lb lst sg1))) as P1.
           pose proof (Permutation_length Hp1) as P2. simpl in *. lia. }
